@@ -664,6 +664,27 @@ func runC10(c *Check, w *World) {
 	if f := w.Func(OtpPath, "LeftPadHex"); f != nil && len(f.Params) == 2 {
 		iv.Assume[tb.Of(f.Params[1]).String()] = Itv{bi(0), bi(1 << 20)}
 	}
+	// verified summaries: a function proved to compute 10^n (checkPow10) returns [10^lo, 10^hi]
+	pow10 := map[*ssa.Function]bool{}
+	iv.CallSummary = func(cl *ssa.Call, arg func(ssa.Value) Itv) (Itv, bool) {
+		f := cl.Call.StaticCallee()
+		if f == nil || !w.InModule(f) || len(cl.Call.Args) != 1 {
+			return Itv{}, false
+		}
+		ok, seen := pow10[f]
+		if !seen {
+			ok = f.Signature.Results().Len() == 1 && checkPow10(tb, f) == ""
+			pow10[f] = ok
+		}
+		if !ok {
+			return Itv{}, false
+		}
+		a := arg(cl.Call.Args[0])
+		if a.Lo == nil || a.Hi == nil || a.Lo.Sign() < 0 || a.Hi.Cmp(bi(19)) > 0 {
+			return Itv{}, false
+		}
+		return Itv{new(big.Int).Exp(bi(10), a.Lo, nil), new(big.Int).Exp(bi(10), a.Hi, nil)}, true
+	}
 	x.assumeSuiteContract()
 	x.liftPreconditions(exported)
 
@@ -732,6 +753,8 @@ func runC10(c *Check, w *World) {
 				p = y.Pos()
 			case *ssa.Lookup:
 				p = y.Pos()
+			case *ssa.MakeSlice:
+				p = y.Pos() // make() length checks are covered by the make-len obligation
 			default:
 				return
 			}
@@ -782,6 +805,16 @@ func runC10(c *Check, w *World) {
 				c.Bad("panic", fn, "explicit-panic", "an explicit panic is reachable from a public operation other than the documented Must* helpers", w.InstrPos(in))
 			case *ssa.MakeSlice:
 				l := iv.At(y.Len, y.Block())
+				// length = A - B under the dominating guard B < A
+				if bo, isB := y.Len.(*ssa.BinOp); isB && bo.Op == token.SUB && (l.Lo == nil || l.Lo.Sign() < 0) {
+					if x.guardHolds(y.Block(), tb.Of(bo.Y).String(), token.LSS, tb.Of(bo.X).String()) {
+						a, b2 := iv.At(bo.X, y.Block()), iv.At(bo.Y, y.Block())
+						l.Lo = bi(1)
+						if a.Hi != nil && b2.Lo != nil {
+							l.Hi = new(big.Int).Sub(a.Hi, b2.Lo)
+						}
+					}
+				}
 				ok := l.Lo != nil && l.Lo.Sign() >= 0 && l.Hi != nil && l.Hi.Cmp(bi(loopCap)) <= 0
 				if cl, isLen := y.Cap.(*ssa.Call); isLen && !ok {
 					_ = cl
